@@ -143,11 +143,19 @@ def w_dissipative(ctx, rng, idx):
     kind = ["dephasing", "relaxation", "depolarizing", "eff_noise", "dephasing+relaxation"][idx // 7 % 5]
     n = 1 + (idx // 35) % 2
     ch = gen.pick(rng, ["rydberg_global", "raman_local"]) if "relaxation" not in kind else "rydberg_global"
+    hyperfine_only = kind == "dephasing" and (idx // 35) % 2 == 1  # dephasing of the hyperfine state alone (rate of r: 0)
+    if hyperfine_only:
+        ch = "raman_local"
     D = gen.pick(rng, [100, 300, 520])
-    seq = one_pulse(D, omega=gen.pick(rng, [2.0, 6.0]), det=gen.pick(rng, [0.0, 1.5]), channel=ch, n=n)
+    om, de = gen.pick(rng, [2.0, 6.0]), gen.pick(rng, [0.0, 1.5])
+    seq = one_pulse(D, omega=6.0 if hyperfine_only else om, det=0.0 if hyperfine_only else de, channel=ch, n=n)
     kw = {}
     if "dephasing" in kind:
         kw.update(dephasing_rate=gen.pick(rng, [0.05, 1.0, 5.0]), hyperfine_dephasing_rate=gen.pick(rng, [1e-3, 0.5]))
+        if hyperfine_only:
+            kw.pop("dephasing_rate")
+            kw["hyperfine_dephasing_rate"] = gen.pick(rng, [0.2, 0.5, 2.0])
+            ctx.count("dissipative_cases_with_hyperfine_dephasing_only")
     if "relaxation" in kind:
         kw.update(relaxation_rate=gen.pick(rng, [0.01, 1.0, 4.0]))
     if kind == "depolarizing":
@@ -182,6 +190,22 @@ def w_dissipative(ctx, rng, idx):
         lam = np.linalg.eigvalsh((rho + rho.conj().T) / 2)
         if lam.min() < -1e-6:
             ctx.violation("positive", f"{kind}: smallest eigenvalue of rho is {lam.min()!r}", "rho-not-positive")
+    # an atom driven into a superposition of g and h, with a dephasing rate on h only (the rate of r is 0), cannot stay
+    # pure: "the density matrix" of the statement is the one evolved under the configured noise. (Checked for this
+    # configuration only: resonant drive of 6 rad/us for >= 100 ns, rates >= 0.2/us; drops observed >= 1e-3. A
+    # general "must be mixed" rule has no safe threshold: weak relaxation of a barely excited atom changes the purity
+    # by 1e-7 - a first, general version of this check raised a false alarm on exactly that.)
+    if hyperfine_only:
+        last = np.asarray(res.states[-1].full())
+        if last.shape[1] == 1:
+            last = last @ last.conj().T
+        purity = float(np.real(np.trace(last @ last)))
+        ctx.count("purity_checks_under_hyperfine_dephasing")
+        ctx.case["final_purity"] = purity
+        if 1 - purity < 1e-4:
+            ctx.violation("dissipation-ignored", f"hyperfine dephasing {kw} on {ch}: the final state is pure "
+                          f"(1 - Tr rho^2 = {1 - purity:.3g}) although g and h are in superposition for {D} ns",
+                          "dissipation-ignored:hyperfine-only")
     ctx.mark_nontrivial(("diss", kind, n, ch, D, tuple(sorted((k, str(v)[:12]) for k, v in kw.items()))))
     # ---- same sequence and configuration => same states: a fresh legacy emulator, one that went through another
     #      configuration first, and the V2 backend -------------------------------------------------------------
